@@ -86,6 +86,60 @@ pub fn docs_core() -> Vec<Value> {
     ]
 }
 
+/// Documents whose containers have a *medium* size (around 16, 32, 64 ... elements or members): heterogeneous
+/// arrays with nulls, nested arrays and objects at every residue, arrays of objects, arrays of arrays of
+/// varying length, objects whose keys arrive in scrambled order.  The dense pools stop at 5 elements / 8
+/// members; a shortcut that engages at a capacity boundary (inline buffer, pre-sized vector, chunked loop,
+/// small-map representation) first differs here.
+pub fn medium_docs(sizes: &[usize]) -> Vec<Value> {
+    let mut out = Vec::new();
+    for &n in sizes {
+        let het: Vec<Value> = (0..n)
+            .map(|i| match i % 9 {
+                0 => json!(i),
+                1 => json!(null),
+                2 => json!("a"),
+                3 => json!([i, null, [i]]),
+                4 => json!({"a": i, "b": null}),
+                5 => json!({"a": [i, i + 1], "b": i}),
+                6 => json!(i % 2 == 0),
+                7 => json!([]),
+                _ => json!({}),
+            })
+            .collect();
+        let objs: Vec<Value> = (0..n).map(|i| json!({"a": i % 3, "b": [i, i + 1]})).collect();
+        let arrs: Vec<Value> = (0..n)
+            .map(|i| match i % 4 {
+                0 => json!([]),
+                1 => json!([i]),
+                2 => json!([i, null, [i]]),
+                _ => json!(null),
+            })
+            .collect();
+        let mut m = serde_json::Map::new();
+        for j in 0..n {
+            let i = (j * 7 + 3) % n; // scrambled insertion order (7 is coprime to every size used below)
+            let v = match i % 5 {
+                0 => json!(i),
+                1 => json!(null),
+                2 => json!([i, [i]]),
+                3 => json!({"a": i}),
+                _ => json!("a"),
+            };
+            m.insert(format!("k{:03}", i), v);
+        }
+        m.insert("a".into(), json!([1, 2]));
+        m.insert("b".into(), json!(0));
+        out.push(Value::Array(het.clone()));
+        out.push(Value::Array(objs.clone()));
+        out.push(Value::Array(arrs));
+        out.push(Value::Object(m.clone()));
+        out.push(json!({"a": het, "b": m}));
+        out.push(json!({"a": objs, "b": n}));
+    }
+    out
+}
+
 /// D(1,2): every value of depth <= 1 with arrays of length <= 2 and objects
 /// over key subsets of {a,b}, over the scalar alphabet.
 pub fn docs_d12() -> Vec<Value> {
